@@ -99,6 +99,35 @@ pub assume_specification[ str::eq_ignore_ascii_case ](a: &str, b: &str) -> (r: b
 pub uninterp spec fn trim_spec(s: Seq<char>) -> Seq<char>;
 pub assume_specification[ str::trim ](s: &str) -> (r: &str) ensures r@ == trim_spec(s@);
 }
+pub mod vatomic {
+    use vstd::prelude::*;
+    verus! {
+    // std::sync::atomic integers shared between threads (a top-level `static`, rule T-STATIC): what one thread reads may have been
+    // written by any other thread at any time, so a load or a read-modify-write returns ANY value; arithmetic wraps (no panic).
+    pub struct AtomicUsize { pub x: u8 }
+    impl AtomicUsize {
+        #[verifier::external_body] pub fn fetch_add(&self, v: usize, o: std::sync::atomic::Ordering) -> usize { unimplemented!() }
+        #[verifier::external_body] pub fn fetch_sub(&self, v: usize, o: std::sync::atomic::Ordering) -> usize { unimplemented!() }
+        #[verifier::external_body] pub fn load(&self, o: std::sync::atomic::Ordering) -> usize { unimplemented!() }
+        #[verifier::external_body] pub fn store(&self, v: usize, o: std::sync::atomic::Ordering) { unimplemented!() }
+        #[verifier::external_body] pub fn swap(&self, v: usize, o: std::sync::atomic::Ordering) -> usize { unimplemented!() }
+    }
+    pub struct AtomicU64 { pub x: u8 }
+    impl AtomicU64 {
+        #[verifier::external_body] pub fn fetch_add(&self, v: u64, o: std::sync::atomic::Ordering) -> u64 { unimplemented!() }
+        #[verifier::external_body] pub fn fetch_sub(&self, v: u64, o: std::sync::atomic::Ordering) -> u64 { unimplemented!() }
+        #[verifier::external_body] pub fn load(&self, o: std::sync::atomic::Ordering) -> u64 { unimplemented!() }
+        #[verifier::external_body] pub fn store(&self, v: u64, o: std::sync::atomic::Ordering) { unimplemented!() }
+        #[verifier::external_body] pub fn swap(&self, v: u64, o: std::sync::atomic::Ordering) -> u64 { unimplemented!() }
+    }
+    pub struct AtomicBool { pub x: u8 }
+    impl AtomicBool {
+        #[verifier::external_body] pub fn load(&self, o: std::sync::atomic::Ordering) -> bool { unimplemented!() }
+        #[verifier::external_body] pub fn store(&self, v: bool, o: std::sync::atomic::Ordering) { unimplemented!() }
+        #[verifier::external_body] pub fn swap(&self, v: bool, o: std::sync::atomic::Ordering) -> bool { unimplemented!() }
+    }
+    }
+}
 pub mod stdcap {
     use vstd::prelude::*;
     verus! {
